@@ -47,3 +47,26 @@ Proof.
   assert (B2 : Rabs ((2 * tau - 1) / 2) <= 3 / 2) by (apply Rabs_le; lra).
   pose proof (Rmult_le_compat_r r _ _ (Rlt_le _ _ Hr) B0). pose proof (Rmult_le_compat_r r _ _ (Rlt_le _ _ Hr) B1). pose proof (Rmult_le_compat_r r _ _ (Rlt_le _ _ Hr) B2). lra.
 Qed.
+(* hence the interpolation error on such a block from the smoothness of f alone *)
+Lemma uniform3_alldiff a s : 0 < s -> @alldiff RFld [a; a + s; a + 2 * s].
+Proof.
+  intros Hs. cbn [alldiff]. cbn [fsub f0 RFld].
+  repeat split; repeat constructor; try lra.
+Qed.
+Theorem uniform_quadratic_error a s f M tau : 0 < s -> 0 <= tau <= 2 ->
+  (forall u, a <= u <= a + 2 * s -> forall k, (k <= 3)%nat -> ex_derive_n f k u) ->
+  (forall u, a < u < a + 2 * s -> Rabs (Derive_n f 3 u) <= M) ->
+  Rabs (interp [a; a + s; a + 2 * s] f (a + s * tau) - f (a + s * tau)) <= (1 + 5 / 4) * (M * (a + 2 * s - a) ^ 3 / INR (fact 3)).
+Proof.
+  intros Hs Ht Hd HM.
+  assert (Hw : a <= a + s * tau <= a + 2 * s) by nra.
+  pose proof (interp_error_smooth [a; a + s; a + 2 * s] f a (a + 2 * s) M (a + s * tau) (uniform3_alldiff a s Hs)) as G.
+  cbn [length] in G. specialize (G ltac:(lia) ltac:(lra)).
+  assert (Hn : forall j, (j < 3)%nat -> a <= nth j [a; a + s; a + 2 * s] 0 <= a + 2 * s).
+  { intros j Hj. destruct j as [|[|[|j]]]; try lia; cbn [nth]; lra. }
+  specialize (G Hn Hw Hd HM).
+  pose proof (uniform_quadratic_lebesgue a s tau Hs Ht) as L.
+  eapply Rle_trans; [exact G|]. apply Rmult_le_compat_r; [|lra].
+  assert (M0 : 0 <= M). { eapply Rle_trans; [apply Rabs_pos | apply (HM (a + s)); lra]. }
+  apply Rmult_le_pos; [apply Rmult_le_pos; [exact M0 | apply pow_le; lra] | left; apply Rinv_0_lt_compat, lt_0_INR, lt_O_fact].
+Qed.
